@@ -381,6 +381,31 @@ Definition persist_step (s : st) (j : job) (k : N) : st :=
       end
   end.
 
+(* A write fault (ENOSPC, EDQUOT, EFBIG, EIO): the write of the temp file stores at most k
+   more bytes -- never the whole document -- and returns an error; writeSyncFile skips the
+   fsync (`if err == nil`), closes and returns the error; PersistMetadata returns before
+   the rename.  The lock holder is done (its caller logs the error or ignores it):
+   nsqd.dat is not touched, the cut-off temp file stays behind. *)
+Definition fail_step (s : st) (j : job) (k : N) : st :=
+  match j_phase j with
+  | PWrite =>
+      match lookup (j_tmp j) (tmps (fs s)) with
+      | Some c =>
+          let w := Nat.min (pred (doc_size (f_doc c))) (f_written c + N.to_nat k) in
+          let s1 := w_lock (w_fs s (mkFS (dat (fs s)) (upsert (j_tmp j) (mkF (f_doc c) w false) (tmps (fs s))))) None in
+          match j_owner j with
+          | Some i =>
+              match get_thread i (threads s1) with
+              | Some (MAwait :: rest) => w_threads s1 (put_thread i rest (threads s1))
+              | _ => s1
+              end
+          | None => s1
+          end
+      | None => s
+      end
+  | _ => s
+  end.
+
 (* ---------------------------------------------------------------- load (LoadMetadata) *)
 Fixpoint load_chans (cs : list dchan) (acc : list chan) (nid : N) : list chan * N :=
   match cs with
@@ -417,6 +442,7 @@ Inductive ev :=
 | EStep (i : N)               (* thread i performs its next micro-step *)
 | ETask                       (* a pending Notify goroutine gets the NSQD lock and starts persisting *)
 | EPersist (k : N)            (* the lock holder performs its next step *)
+| EFault (k : N)              (* the lock holder's write of the temp file fails after at most k more bytes *)
 | EKill                       (* SIGKILL *)
 | ERestart.                   (* the daemon is started again on the same data path *)
 
@@ -457,6 +483,8 @@ Definition step_ (pad : bool) (s : st) (e : ev) : st :=
       end
   | EPersist k =>
       match lock s with Some j => persist_step s j k | None => s end
+  | EFault k =>
+      match lock s with Some j => fail_step s j k | None => s end
   end.
 
 (* Does the source (gen/MetaShape.v, regenerated from the repository on every run) persist
